@@ -299,7 +299,6 @@ func c06Run(e *c06Env, sc *c06Script) {
 		}
 	}
 	defer finish()
-	shape := func() string { return fmt.Sprintf("FailNum=%d,SuccNum=%d", sc.FailNum, sc.SuccNum) }
 	for i, st := range sc.Steps {
 		switch st.Kind {
 		case "fail", "succ":
@@ -334,7 +333,7 @@ func c06Run(e *c06Env, sc *c06Script) {
 			definite++
 			log = append(log, fmt.Sprintf("Avail=%v", got))
 			if got != ref.avail {
-				r.Violation("avail-differs-from-reference:"+shape(), fmt.Sprintf("step %d: Avail()=%v, reference %v", i, got, ref.avail), wit(i))
+				r.Violation("avail-differs-from-reference", fmt.Sprintf("step %d: Avail()=%v, reference %v", i, got, ref.avail), wit(i))
 				return
 			}
 		case "probe":
@@ -344,7 +343,7 @@ func c06Run(e *c06Env, sc *c06Script) {
 			if parked == nil {
 				p, up := c06WaitArrivalOrAvail(b, sb, &polls)
 				if p == nil && up {
-					r.Violation("returned-early:"+shape(), fmt.Sprintf("step %d: back in rotation after a streak of %d successful checks, SuccNum=%d", i, ref.streak, sc.SuccNum), wit(i))
+					r.Violation("returned-early", fmt.Sprintf("step %d: back in rotation after a streak of %d successful checks, SuccNum=%d", i, ref.streak, sc.SuccNum), wit(i))
 					return
 				}
 				if p == nil {
@@ -357,7 +356,7 @@ func c06Run(e *c06Env, sc *c06Script) {
 			// the single checker is parked inside its probe: this read is definite
 			definite++
 			if b.Avail() {
-				r.Violation("in-rotation-while-checker-parked:"+shape(), fmt.Sprintf("step %d: Avail() is true while a health check is still outstanding (streak %d of %d)", i, ref.streak, sc.SuccNum), wit(i))
+				r.Violation("in-rotation-while-checker-parked", fmt.Sprintf("step %d: Avail() is true while a health check is still outstanding (streak %d of %d)", i, ref.streak, sc.SuccNum), wit(i))
 				return
 			}
 			if failsWhileParked > 0 {
@@ -384,7 +383,7 @@ func c06Run(e *c06Env, sc *c06Script) {
 			if ref.streak >= sc.SuccNum {
 				if p != nil {
 					parked = p
-					r.Violation("not-returned-after-succnum:"+shape(), fmt.Sprintf("step %d: %d consecutive successful checks (SuccNum=%d) but the checker sent another probe instead of returning the backend", i, ref.streak, sc.SuccNum), wit(i))
+					r.Violation("not-returned-after-succnum", fmt.Sprintf("step %d: %d consecutive successful checks (SuccNum=%d) but the checker sent another probe instead of returning the backend", i, ref.streak, sc.SuccNum), wit(i))
 					return
 				}
 				if !up {
@@ -396,7 +395,7 @@ func c06Run(e *c06Env, sc *c06Script) {
 				log = append(log, "returned")
 			} else {
 				if p == nil && up {
-					r.Violation("returned-early:"+shape(), fmt.Sprintf("step %d: back in rotation after a streak of %d successful checks, SuccNum=%d", i, ref.streak, sc.SuccNum), wit(i))
+					r.Violation("returned-early", fmt.Sprintf("step %d: back in rotation after a streak of %d successful checks, SuccNum=%d", i, ref.streak, sc.SuccNum), wit(i))
 					return
 				}
 				if p == nil {
@@ -406,7 +405,7 @@ func c06Run(e *c06Env, sc *c06Script) {
 				}
 				if up {
 					parked = p
-					r.Violation("returned-early:"+shape(), fmt.Sprintf("step %d: back in rotation after a streak of %d successful checks, SuccNum=%d", i, ref.streak, sc.SuccNum), wit(i))
+					r.Violation("returned-early", fmt.Sprintf("step %d: back in rotation after a streak of %d successful checks, SuccNum=%d", i, ref.streak, sc.SuccNum), wit(i))
 					return
 				}
 				parked = p
